@@ -1,5 +1,10 @@
 use std::fmt::{Debug, Formatter};
 use std::io;
+#[cfg(feature = "verif-hooks")]
+use crate::verif_sync::RwLock;
+#[cfg(feature = "verif-hooks")]
+use std::sync::Arc;
+#[cfg(not(feature = "verif-hooks"))]
 use std::sync::{Arc, RwLock};
 use std::thread::panicking;
 #[cfg(not(target_arch = "wasm32"))]
